@@ -671,18 +671,26 @@ impl Exec {
 				match guarded(move || o.convert(to)) {
 					Caught::Ok(Ok(n)) => self.owner = Some(n),
 					Caught::Ok(Err(())) => return Outcome::Invalid,
-					Caught::Panic(m) => {
-						return if armed04 {
-							violation(Prop::C04, "panic", idx, None, &name, format!("{} panicked: {}", name, m), Some(&pre), None, None, ctx_class(kind, &pre), String::new())
-						} else {
-							Outcome::Abandon
+					Caught::Panic(_) => {
+						// a conversion is a way of obtaining a buffer, not one of C04's mutators
+						if !quiet {
+							stats.hit("conversion_panicked_run_abandoned");
 						}
+						return Outcome::Abandon;
 					}
 					Caught::Injected => unreachable!(),
 				}
-				// (whether a conversion preserves the text is C13, not C04)
-				if let Some(v) = self.wf(idx, &name, &pre, ctx_class(kind, &pre), String::new()) {
-					return v;
+				// Conversions are C13: whether one preserves the text, or hands out a value of a
+				// type its text does not belong to, is not C04's statement. Such a buffer is not a
+				// valid starting point for further edits either, so the run ends here.
+				let _ = (&name, idx);
+				if let Some(o) = self.owner.as_ref() {
+					if well_formed(o.kind(), o.bytes()).is_err() {
+						if !quiet {
+							stats.hit("invalid_after_conversion_run_abandoned");
+						}
+						return Outcome::Abandon;
+					}
 				}
 				Outcome::Ok
 			}
